@@ -84,7 +84,7 @@ CHECKS["C18"] = ("E2-sim",
   "exhaustive single and double loss over the unacknowledged exchange of the real daemons + proptest scenarios; trace oracle on PDU kinds, tiling, end points, closure relay and delivery code against an exact delivered-bytes model",
   "Unacknowledged mode, closure off/on x checksum type x 6 (size, content) pairs: every single loss and every pair of losses over all datagram ordinals of both directions (exhaustive), plus "
   "sampled scenarios with duplicates, delays and corruption. Checked: the receiver emits nothing (only Finished with closure); the sender emits Metadata, the file tiled once in order, EOF; "
-  "without closure both end on EOF; with closure the Finished PDU carries the receiver's outcome, the sender ends only when it arrives (or within its limits) and relays condition, delivery code and "
+  "without closure both end on EOF; with closure a receiver that knows closure was requested sends a Finished PDU whatever outcome it reaches (delivery finalised or fault handled by cancelling), the PDU carries that outcome, the sender ends only when it arrives (or within its limits) and relays condition, delivery code and "
   "file status; a receiver missing metadata or any byte never reports Complete.",
   "With closure the sender may repeat its EOF while waiting. Exhaustive for <= 2 losses on the listed configurations only.",
   "DESIGN.md §5 C18")
@@ -100,7 +100,7 @@ CHECKS["C19"] = ("E2-sim",
   "A user Suspend at the sender or receiver when the link sees datagram k of either direction (every k, delay 0/1 ms), Resume 0.5 s .. 100 s after the Suspended indication. Family 'silence' "
   "(suspended side: 1 s timers, peer: 400 s) checks that no Metadata/FileData/EOF/NAK/Finished leaves the suspended entity and no limit fault is declared between the indication (+pipeline slack) "
   "and the resume request; family 'completion' (3 s timers, suspension up to 6 s, one lost datagram at every ordinal in acknowledged mode) checks that the transfer then completes exactly as "
-  "C02 demands; any later limit fault must have L*min(T) of un-suspended time behind it.",
+  "C02 demands; any later limit fault must have L*min(T) of un-suspended time behind it. Family 'sampled' (proptest): the general scenario generator (any configuration, up to 3 faults) with a suspension of 0..8 s at either entity, judged for silence and timer faults only.",
   "ACK/keep-alive during suspension tolerated; two PDUs already in the transport pipeline may still appear. Exhaustive over ordinals of the listed configurations only.",
   "DESIGN.md §5 C19")
 CHECKS["C08"] = ("E3-puppet",
@@ -146,8 +146,8 @@ CHECKS["C13"] = ("E1-pure + E2-sim",
 CHECKS["C04"] = ("E3-puppet + E2-sim",
   "exhaustive re-delivery of every previously sent PDU (singles and ordered pairs) by a puppet sender after the receiver's first success, and exhaustive handshake-loss combinations between two real daemons; invariant oracle after the first success",
   "Puppet family: file transfers and requests-only transactions x Modular/Null checksum x 6 request lists with non-idempotent requests x every single and every ordered pair of late PDUs (Metadata, EOF, both prompts, "
-  "each data segment) delivered while the receiver waits for the ACK of Finished x ACK sent/never x 2 NAK procedures. Real family: ACK(EOF), Finished, ACK(Finished) each lost 0/1/2 times (27 combinations) x sizes x checksum x "
-  "request lists. After the first success: no checksum/size fault indication or Finished PDU, no second success report, identical filestore responses in every Finished PDU, destination == source and the receiver's filestore == "
+  "each data segment) delivered while the receiver waits for the ACK of Finished x ACK sent/never x 2 NAK procedures; sampled: 1..5 stragglers at arbitrary moments of that wait (incl. the millisecond of completion, of a Finished retransmission, of the ACK). Real family: ACK(EOF), Finished, ACK(Finished) each lost 0/1/2 times (27 combinations) x sizes x checksum x "
+  "request lists. Between the first success and the end of that transaction: no checksum/size fault indication or Finished PDU, no second success report, identical filestore responses in every Finished PDU, destination == source and the receiver's filestore == "
   "the model with the requests applied exactly once; a sender reports success only after its receiver did.",
   "Side effects are compared at the end of the run with the C13 model. Late PDUs arriving after the transaction has ended start a new transaction (C11).",
   "DESIGN.md §5 C04")
